@@ -305,6 +305,20 @@ def check_case(ctx, case, rng):
                 break
             v1 = vnew
             d0 = d1
+        # a value one beyond a bit-field's range is refused when written: it must not reach the neighbouring field's bits
+        bitnames = [n for n in names if fmap[n][1].get("bits")]
+        for n in bitnames[:2]:
+            i, f = fmap[n]
+            try:
+                obj2 = T(d0)
+                setattr(obj2, n, 1 << f["bits"])
+                d2 = obj2.dumps()
+            except Exception:  # noqa: BLE001
+                ctx.event("out_of_range_bit_field_assignment_refused")
+                continue
+            ctx.evaluation(key + ("assign-out-of-range", n))
+            viol("locality", "assignment-changes-bytes-outside-the-field", field=n, value=1 << f["bits"], before=d0, after=d2,
+                 note="a value of exactly 2^bits was written instead of refused")
         # ... and a change made in place -- an element of an array member, a field of a nested structure or of a
         # structure inside an array -- of a *parsed* instance (its members are still the objects the reader made):
         # the dumped bytes are those of the values it holds now
@@ -486,6 +500,26 @@ def special_forms(ctx):
                               dict(det, hashes=[hash(k) for k in ks]))
             else:
                 ctx.event("enum_alias_twin_hashes_equal")
+        except Exception as e:  # noqa: BLE001
+            ctx.violation("special", f"special-form-raises:{type(e).__name__}", dict(det, error=lib.exc_sig(e)))
+        # (d+) the hash follows the fields: hashed, then a field assigned, the instance hashes like an equal one that was
+        # never hashed before (and is found in a set of such)
+        try:
+            ctx.cell("hash-after-assignment")
+            ctx.evaluation(("special-forms-hash-after-assignment", compiled))
+            x = cs.A(tag=b"abc", n=1, m=2)
+            hash(x)
+            x.n = 7
+            x.tag = b"xyz"
+            y = cs.A(tag=b"xyz", n=7, m=2)
+            z = cs.A(b"xyz\x07\x02\x00")
+            k = cs.K(e=cs.E.P, f=cs.F.X, x=1)
+            hash(k)
+            k.e = cs.E.Q
+            if not (x == y == z and hash(x) == hash(y) == hash(z) and x in {y} and hash(k) == hash(cs.K(e=cs.E.Q, f=cs.F.X, x=1))):
+                ctx.violation("special", "hash-does-not-follow-a-field-assignment", dict(det, hashes=[hash(x), hash(y), hash(z)]))
+            else:
+                ctx.event("hash_after_assignment_checked")
         except Exception as e:  # noqa: BLE001
             ctx.violation("special", f"special-form-raises:{type(e).__name__}", dict(det, error=lib.exc_sig(e)))
         # (d'') the same definition loaded into another cstruct object is another structure type: never equal, in either
